@@ -10,11 +10,30 @@ import (
 	"context"
 	"errors"
 
+	"github.com/WuKongIM/WuKongIM/pkg/db/internal/commit"
 	"github.com/WuKongIM/WuKongIM/pkg/db/internal/dberrors"
 	"github.com/WuKongIM/WuKongIM/pkg/db/internal/engine"
 	"github.com/WuKongIM/WuKongIM/pkg/db/internal/keycodec"
 	channel "github.com/WuKongIM/WuKongIM/pkg/db/message/channelcompat"
 )
+
+// VerifC11OpenMem opens a message DB exactly like OpenWithLogger does, on an in-memory file
+// system and with a small memtable (the harness opens hundreds of short-lived stores).
+func VerifC11OpenMem() (*Engine, error) {
+	opts := messageEngineOptions(nil)
+	opts.MemTableSize = 1 << 20
+	eng, err := engine.VerifC11OpenMem(opts)
+	if err != nil {
+		return nil, err
+	}
+	cfg := effectiveCommitCoordinatorConfig(CommitCoordinatorConfig{})
+	return &Engine{
+		db:        NewDB(eng),
+		engine:    eng,
+		commitCfg: cfg,
+		committer: commit.NewCoordinator(eng, commitCoordinatorConfig(cfg)),
+	}, nil
+}
 
 // VerifC11DB returns the typed message domain behind the compatibility engine.
 func (e *Engine) VerifC11DB() *MessageDB {
